@@ -57,7 +57,7 @@ PairSymbolsQ == {"orig-1", "orig+1", "rem+1"}
 PairPlan == LET S == IF Thorough THEN PairSymbols ELSE PairSymbolsQ
             IN  {[arch |-> "pair", role |-> a, val |-> b] : a \in S, b \in S}
 
-HavocPlan == IF Thorough THEN {[arch |-> "havoc", role |-> "-", val |-> "1200"]} ELSE {}
+HavocPlan == IF Thorough THEN {[arch |-> "havoc", role |-> "-", val |-> "4000"]} ELSE {}
 
 Plan == SetToSeq(FieldPlan) \o SetToSeq(PrefixPlan) \o SetToSeq(ChunkPlan) \o SetToSeq(PairPlan) \o SetToSeq(HavocPlan)
 Cases == [i \in 1..Len(Plan) |-> [id |-> i, arch |-> Plan[i].arch, role |-> Plan[i].role, val |-> Plan[i].val]]
